@@ -27,7 +27,9 @@ from .driver import Violation
 from .sched import HarnessError
 
 VERIF = os.path.dirname(os.path.dirname(os.path.abspath(__file__)))
-REPLAYS = os.path.join(VERIF, "replays")
+# (tools that evaluate scratch trees point this elsewhere, so that concurrent evaluations do not clean up
+# each other's replay files)
+REPLAYS = os.environ.get("VERIF_REPLAY_DIR") or os.path.join(VERIF, "replays")
 EVIDENCE = os.path.join(VERIF, "evidence")
 KNOWN = os.path.join(VERIF, "known_findings.json")
 
@@ -546,6 +548,10 @@ def check(pid, tier, verif_seed, workers=None, runs=None):
     print("%s: %d runs in %.1fs (%.0f runs/h), %d distinct non-trivial cases, violations: %s%s" % (
         pid, m["n"], m["wall"], m["n"] / m["wall"] * 3600 if m["wall"] else 0, len(m["sigs"]),
         m["violation_counts"] or "none", " [cut off by wall cap]" if m["cut"] else ""))
+    if reported:
+        # at least one violation reproduces from a clean state in a fresh interpreter: that is the verdict,
+        # whatever else could not be reproduced or went wrong in the harness on the way (printed above)
+        return 1
     if status == 2:
         return 2
     return 1 if unlisted else 0
